@@ -256,11 +256,24 @@ def run_case(case: dict[str, Any]) -> CaseOut:
                 word = (b'MOVE' if 'move' in op else b'COPY')
                 # sync first, so that the session's view holds what we pick
                 w.cmd(k, b'NOOP')
+                # how the set is written: ascending, descending, rotated,
+                # or with its first element repeated at the end - the
+                # COPYUID pairing must hold however the client ordered it
+                shape = (c_ // 7) % 4
+                order = list(pick)
+                if shape == 1:
+                    order.reverse()
+                elif shape == 2:
+                    order = order[-1:] + order[:-1]
+                elif shape == 3:
+                    order = order + order[:1]
+                if shape and len(pick) > 1:
+                    out.label('copy-set-not-ascending')
                 if op.startswith('uid'):
                     data = b'UID ' + word + b' ' + b','.join(
-                        b'%d' % u for u in pick) + b' ' + dest
+                        b'%d' % u for u in order) + b' ' + dest
                 else:
-                    pos = [suids.index(u) + 1 for u in pick]
+                    pos = [suids.index(u) + 1 for u in order]
                     data = word + b' ' + b','.join(b'%d' % p for p in pos) \
                         + b' ' + dest
                 got, ok = w.cmd(k, data)
